@@ -303,6 +303,8 @@ func Run(c *hx.Ctx) {
 		return
 	}
 	rng := c.Rng.Fork()
+	// 0. per-frame isolation on the server stream connection: several frames per read, receiver keeps what it is handed (ctx.go)
+	ctxCases(c)
 	// 1. id generators, driven directly through their exported pointer argument
 	for _, p := range []string{"bolt", "boltv2", "dubbo", "thrift", "tars"} {
 		pr := genProto(p)
